@@ -1,65 +1,21 @@
-(* Pattern/Refuted.v — what the faithful implementation model refutes
-   (witnesses by vm_compute; each is replayed on the Go code by the check). *)
+(* Pattern/Refuted.v — what the faithful implementation model still refutes
+   (witness by vm_compute; replayed on the Go code by the check).
+   The other defects found in round 1 (machine panic on %n -> position capture,
+   string.match beyond the end, gsub anchor / empty result / trailing %) have
+   been repaired in /repo and the models updated; their witnesses live in
+   corpus/C15/. *)
 From Coq Require Import ZArith NArith List Bool.
 From GV Require Import Pattern.Common Pattern.Build Pattern.Machine Pattern.Spec Pattern.Drivers.
 Import ListNotations.
 Open Scope Z_scope.
 
-Definition b_of (r : res pattern) : pattern :=
-  match r with Ok p => p | _ => mkPattern [] 0 false false end.
-
-(* pattern "()%1" on "abc": the machine slices s[0:-1] — a Go run-time panic *)
-Lemma backref_position_capture_panics :
-  exists ptn s, exists p, build ptn = Ok p /\
-    a_panicked (api false p 1000 s 0 0) = true.
-Proof.
-  exists [40; 41; 37; 49], [97; 98; 99]. eexists. split; [vm_compute; reflexivity|].
-  vm_compute. reflexivity.
-Qed.
-
-(* no_panic, refuted as stated for all patterns: *)
-Lemma machine_no_panic_refuted :
-  exists items ea s st fuel, fst (run items ea s fuel 0 0 st) = OPanic.
-Proof.
-  exists [ICapStart 1; IBackref 1], false, [97], (start_state 0 caps0), 10%nat.
-  vm_compute. reflexivity.
-Qed.
-
-(* ("aaa"):gsub("^a","x"): the model of matching.go gives xxx 3, the manual xaa 1 *)
-Lemma gsub_ignores_anchor_refuted :
-  exists ptn s repl p, build ptn = Ok p /\
-    fst (fst (gsub_im p 1000 s 0 repl (-1))) = DVals [CStr [120; 120; 120]; CPos 3] /\
-    gsub_s p s repl (-1) = DVals [CStr [120; 97; 97]; CPos 1].
-Proof.
-  exists [94; 97], [97; 97; 97], [120]. eexists. split; [vm_compute; reflexivity|].
-  split; vm_compute; reflexivity.
-Qed.
-
-(* ("abc"):gsub("%w*","x"): count 2 instead of 1 *)
+(* ("abc"):gsub("%w*","x"): count 2 instead of 1 — the skipped empty match is
+   counted (lib/stringlib/lua/matching.lua:237 pins this behaviour) *)
 Lemma gsub_count_refuted :
   exists ptn s repl p, build ptn = Ok p /\
-    fst (fst (gsub_im p 1000 s 0 repl (-1))) = DVals [CStr [120]; CPos 2] /\
+    fst (gsub_im p 1000 s 0 repl (-1)) = DVals [CStr [120]; CPos 2] /\
     gsub_s p s repl (-1) = DVals [CStr [120]; CPos 1].
 Proof.
   exists [37; 119; 42], [97; 98; 99], [120]. eexists. split; [vm_compute; reflexivity|].
-  split; vm_compute; reflexivity.
-Qed.
-
-(* ("abc"):gsub("abc",""): the subject comes back unchanged *)
-Lemma gsub_empty_result_refuted :
-  exists ptn s p, build ptn = Ok p /\
-    fst (fst (gsub_im p 1000 s 0 [] (-1))) = DVals [CStr s; CPos 1] /\
-    gsub_s p s [] (-1) = DVals [CStr []; CPos 1].
-Proof.
-  exists [97; 98; 99], [97; 98; 99]. eexists. split; [vm_compute; reflexivity|].
-  split; vm_compute; reflexivity.
-Qed.
-
-(* string.match("abc", "^", 5): slice panic in pushCaptures *)
-Lemma match_beyond_end_refuted :
-  exists ptn s p, build ptn = Ok p /\
-    fst (match_im p 1000 s 0 4) = DPanic /\ match_s p s 4 = DNil.
-Proof.
-  exists [94], [97; 98; 99]. eexists. split; [vm_compute; reflexivity|].
   split; vm_compute; reflexivity.
 Qed.
